@@ -300,8 +300,18 @@ func (p *vfPair) HandshakeTimed(timeout time.Duration) (cAt, sAt time.Duration) 
 	defer cancel()
 	var wg sync.WaitGroup
 	wg.Add(2)
-	go func() { defer wg.Done(); p.C.Err = p.C.Conn.HandshakeContext(ctx); cAt = p.Net.Now(); p.earlyWrites(p.C) }()
-	go func() { defer wg.Done(); p.S.Err = p.S.Conn.HandshakeContext(ctx); sAt = p.Net.Now(); p.earlyWrites(p.S) }()
+	go func() {
+		defer wg.Done()
+		p.C.Err = p.C.Conn.HandshakeContext(ctx)
+		cAt = p.Net.Now()
+		p.earlyWrites(p.C)
+	}()
+	go func() {
+		defer wg.Done()
+		p.S.Err = p.S.Conn.HandshakeContext(ctx)
+		sAt = p.Net.Now()
+		p.earlyWrites(p.S)
+	}()
 	wg.Wait()
 
 	return cAt, sAt
